@@ -52,6 +52,8 @@ const (
 type typ struct {
 	nn     bool
 	kind   int
+	abs    int      // kObj: 0 the field's type is the object type itself, 1 an interface it implements, 2 a union containing it
+	name   string   // kObj: name of the concrete object type (set when the schema is built)
 	item   *typ     // kList
 	fields []*ftype // kObj
 	gql    graphql.Type
@@ -216,8 +218,9 @@ type builder struct {
 	counter *int // the state the resolvers share: read, then incremented, by every side effect
 	api     bool // resolve asynchronous fields with apifu.Go instead of a harness promise
 	mu      *sync.Mutex
-	root    *val // api mode: the object value of the root fields (apifu passes no InitialValue)
-	batch   bool // api mode: every second asynchronous field goes through apifu.Batch
+	root    *val                // api mode: the object value of the root fields (apifu passes no InitialValue)
+	batch   bool                // api mode: every second asynchronous field goes through apifu.Batch
+	extra   []graphql.NamedType // object types only reachable through an interface they implement
 }
 
 func (b *builder) gqlType(t *typ) graphql.Type {
@@ -231,7 +234,23 @@ func (b *builder) gqlType(t *typ) graphql.Type {
 	case kList:
 		g = graphql.NewListType(b.gqlType(t.item))
 	case kObj:
-		g = b.objType(fmt.Sprintf("T%d", b.n), t)
+		o := b.objType(fmt.Sprintf("T%d", b.n), t)
+		t.name = o.Name
+		g = o
+		if t.abs != 0 {
+			o.IsTypeOf = func(v interface{}) bool {
+				x, ok := v.(*val)
+				return ok && x.t == t
+			}
+			if t.abs == 1 {
+				iface := &graphql.InterfaceType{Name: "I" + o.Name, Fields: o.Fields}
+				o.ImplementedInterfaces = []*graphql.InterfaceType{iface}
+				b.extra = append(b.extra, o)
+				g = iface
+			} else {
+				g = &graphql.UnionType{Name: "U" + o.Name, MemberTypes: []*graphql.ObjectType{o}}
+			}
+		}
 	}
 	if t.nn {
 		g = graphql.NewNonNullType(g)
@@ -360,12 +379,22 @@ func subText(t *typ, sb *strings.Builder, lo, hi int) {
 	if hi < 0 {
 		hi = len(fs)
 	}
+	ot := t
+	for ot.kind == kList {
+		ot = ot.item
+	}
 	sb.WriteString("{")
+	if ot.abs != 0 {
+		sb.WriteString("... on " + ot.name + " {")
+	}
 	for i, ft := range fs[lo:hi] {
 		if i > 0 {
 			sb.WriteString(" ")
 		}
 		selectionText(ft, sb)
+	}
+	if ot.abs != 0 {
+		sb.WriteString("}")
 	}
 	sb.WriteString("}")
 }
@@ -451,6 +480,21 @@ type observation struct {
 	events []sexp.Node
 }
 
+func hasAbstract(t *typ) bool {
+	if t.abs != 0 {
+		return true
+	}
+	if t.item != nil && hasAbstract(t.item) {
+		return true
+	}
+	for _, ft := range t.fields {
+		if hasAbstract(ft.t) {
+			return true
+		}
+	}
+	return false
+}
+
 func resetGql(t *typ) {
 	t.gql = nil
 	if t.item != nil {
@@ -486,6 +530,7 @@ func run(root *val, mutation bool, ranks []int, opts docOpts) observation {
 		def.Query = b.objType(rootName, root.t)
 	}
 	doc := documentText(root.t, mutation, rootName, opts.shape, opts.dups)
+	def.AdditionalTypes = b.extra
 	schema, err := graphql.NewSchema(def)
 	if err != nil {
 		panic(fmt.Sprintf("schema: %v (%s)", err, doc))
@@ -806,6 +851,9 @@ func caseSexp(root *val, mutation bool, ranks []int, opts docOpts) sexp.Node {
 			d2 = true
 		}
 	}
+	if hasAbstract(root.t) {
+		feat = append(feat, sexp.Sym("abstract-typed-field"))
+	}
 	if d1 {
 		feat = append(feat, sexp.Sym("duplicate-root-key"))
 	}
@@ -1023,6 +1071,12 @@ func extras(h *hx.H, maxProm int, r *rng.R) {
 		b := fld("b", leafT(false))
 		return obj(objT(false, a, b), fv(a, obj(a.t, leafField(x, c0, 1), leafField(y, 0, 2))), leafField(b, 0, 3)), a, b
 	}
+	// mutation { a { ... on T {x y} } b }: a declared with an interface / a union type
+	for _, abs := range []int{1, 2} {
+		root, a, _ := mk(0)
+		a.t.abs = abs
+		allSchedulesOpts(h, root, true, maxProm, r, docOpts{})
+	}
 	for _, c0 := range []int{0, 2} {
 		// mutation { a{x} b a{y} b }: a's selection split, b written twice
 		root, _, _ := mk(c0)
@@ -1044,6 +1098,7 @@ func extras(h *hx.H, maxProm int, r *rng.R) {
 type gen struct {
 	r      *rng.R
 	budget int
+	abs    bool // object-typed fields may be declared with an interface or union type
 }
 
 func (g *gen) typ(depth int) *typ {
@@ -1069,7 +1124,11 @@ func (g *gen) typ(depth int) *typ {
 			}
 			fs = append(fs, &ftype{key: key, name: name, t: g.typ(depth - 1)})
 		}
-		return objT(nn, fs...)
+		t := objT(nn, fs...)
+		if g.abs && g.r.Chance(1, 3) {
+			t.abs = g.r.Range(1, 2)
+		}
+		return t
 	}
 }
 
@@ -1108,8 +1167,8 @@ func (g *gen) val(t *typ, failDen int) *val {
 	return v
 }
 
-func randomRoot(r *rng.R, nroots, depth, budget, failDen int) *val {
-	g := &gen{r: r, budget: budget}
+func randomRoot(r *rng.R, nroots, depth, budget, failDen int, abs bool) *val {
+	g := &gen{r: r, budget: budget, abs: abs}
 	var fs []*ftype
 	for i := 0; i < nroots; i++ {
 		name := fmt.Sprintf("r%d", i)
@@ -1145,7 +1204,7 @@ func randomCase(r *rng.R, mutation bool, nroots int) sexp.Node {
 	} else if r.Chance(1, 4) {
 		failDen = 6
 	}
-	root := randomRoot(r, nroots, r.Range(1, 4), r.Range(3, 14), failDen)
+	root := randomRoot(r, nroots, r.Range(1, 4), r.Range(3, 14), failDen, true)
 	density := r.Range(1, 4)
 	k := assignTags(root, func(int) bool { return r.Intn(4) < density })
 	ranks := make([]int, k)
@@ -1235,7 +1294,7 @@ func main() {
 				if r.Chance(1, 2) {
 					failDen = 1000
 				}
-				root := randomRoot(r, r.Range(2, 4), r.Range(1, 3), r.Range(3, 10), failDen)
+				root := randomRoot(r, r.Range(2, 4), r.Range(1, 3), r.Range(3, 10), failDen, false)
 				density := r.Range(1, 4)
 				assignTags(root, func(int) bool { return r.Intn(4) < density })
 				ws := i%5 == 4
